@@ -135,16 +135,14 @@ Definition arg_log (ser : string -> pyval -> pyval) (S : schema) (t : gtype) (v 
   | None => Some []
   end.
 
-(* custom_arguments.py _generate_return_arg_value (enable_custom_operations): whatever list / non-null wrappers the
-   argument type has, the value is `serialize(x) if x is not None else None` - the whole argument (finding F15) *)
-Definition custom_arg_log (S : schema) (t : gtype) (v : pyval) : list (string * pyval) :=
+(* custom_arguments.py (enable_custom_operations; element-wise since /repo 3032a3a, finding F15 before): the log of
+   serialize calls made when the generated expression is evaluated with the argument bound to its parameter *)
+Definition custom_arg_log (ser : string -> pyval -> pyval) (S : schema) (t : gtype) (v : pyval)
+  : option (list (string * pyval)) :=
   match var_ser S t with
-  | Some f => match v with PNone => [] | _ => [(f, v)] end
-  | None => []
+  | Some f => option_map snd (eval_se ser [("x", v)] (gen_cu t "x" f true 0))
+  | None => Some []
   end.
-
-Fixpoint has_list (t : gtype) : bool :=
-  match t with TNamed _ => false | TList _ => true | TNonNull t' => has_list t' end.
 
 (* ---- specification: the occurrences the property speaks about ---- *)
 (* non-null occurrences of a scalar with parse configured inside a value conformant to type t *)
@@ -215,7 +213,9 @@ Definition run_scalars (e : sexp) : sexp :=
       | Some Sc, Some ty =>
           L [A (sann_str (result_sann Sc ty true)); A (sann_str (input_sann Sc ty true));
              match parse_type_node Sc ty true with
-             | Some (a, u) => L [A (ann_str a); A (dictval_str (dict_value Sc "x" u ty))]
+             | Some (a, u) => L [A (ann_str a); A (dictval_str (dict_value Sc "x" u ty));
+                                 A (match var_ser Sc ty with
+                                    | Some f => dictval_str (gen_cu ty "x" f true 0) | None => "x" end)]
              | None => A "gen-error" end]
       | _, _ => sErr "ann: decode" end
   | L [A "vlog"; sch; t; j] =>
@@ -226,7 +226,7 @@ Definition run_scalars (e : sexp) : sexp :=
       match schema_of_sexp sch, gtype_of_sexp t, pyval_of_sexp v with
       | Some Sc, Some ty, Some pv =>
           L [sPLog (dlog (input_sann Sc ty true) pv); sPLog (occ_ser Sc ty false pv);
-             sPLog (arg_log ser_inst Sc ty pv)]
+             sPLog (arg_log ser_inst Sc ty pv); sPLog (custom_arg_log ser_inst Sc ty pv)]
       | _, _, _ => sErr "dlog: decode" end
   | L [A "imports"; c] =>
       match cfg_of_sexp c with
